@@ -495,6 +495,8 @@ def run(ctx):
             probs = [("prop", "malformed-output", "harness output not parseable (%s): %s" % (ex, h[:120]))]
         for kind, key2, what in probs:
             (corr_bad if kind == "corr" else prop_bad).append((key2, what, line, h))
+    prop_bad.sort(key=lambda v: len(v[2]))          # report the smallest failing input of each kind
+    corr_bad.sort(key=lambda v: len(v[2]))
     seen = set()
     for key2, what, line, h in prop_bad:
         if key2 in seen:
